@@ -260,7 +260,7 @@ func enumLRU(t *testing.T, L int) {
 
 func genLRUCase(t *rapid.T, minLen int) LRUCase {
 	c := LRUCase{
-		Cap:      rapid.SampledFrom([]int{0, 1, 2, 3, 4, 8, 64}).Draw(t, "cap"),
+		Cap:      rapid.SampledFrom([]int{0, 1, 2, 3, 4, 8, 64, 64, 513, 600}).Draw(t, "cap"), // (513, 600: above the default size 512)
 		Callback: rapid.Bool().Draw(t, "callback"),
 		KeyKind:  rapid.SampledFrom([]string{"string", "int", "struct", "nilfirst"}).Draw(t, "keykind"),
 	}
@@ -273,8 +273,26 @@ func genLRUCase(t *rapid.T, minLen int) LRUCase {
 		maxLen = ev.Pick(600, 2000)
 	}
 	n := rapid.IntRange(minLen, maxLen).Draw(t, "n")
+	if c.Cap > 64 {
+		// large capacities: fill beyond the capacity first (one draw for the whole run)
+		over := rapid.IntRange(1, 40).Draw(t, "overfill")
+		nkeys = c.Cap + over
+		for i := 0; i < nkeys; i++ {
+			c.Ops = append(c.Ops, LRUOp{Kind: "S", Key: fmt.Sprintf("k%d", i), Val: 100000 + i})
+		}
+	}
 	for i := 0; i < n; i++ {
 		k := fmt.Sprintf("k%d", rapid.IntRange(0, nkeys-1).Draw(t, "key"))
+		if rapid.IntRange(0, 39).Draw(t, "burst") == 0 {
+			// a long run of Loads without any write in between (alternating over a few keys)
+			m := rapid.IntRange(50, 300).Draw(t, "burstLen")
+			ks := []string{k, fmt.Sprintf("k%d", rapid.IntRange(0, nkeys-1).Draw(t, "burstKey2")), fmt.Sprintf("k%d", rapid.IntRange(0, nkeys-1).Draw(t, "burstKey3"))}
+			nk := rapid.IntRange(1, 3).Draw(t, "burstKeys")
+			for j := 0; j < m; j++ {
+				c.Ops = append(c.Ops, LRUOp{Kind: "L", Key: ks[j%nk]})
+			}
+			continue
+		}
 		switch rapid.IntRange(0, 9).Draw(t, "op") {
 		case 0, 1, 2, 3:
 			c.Ops = append(c.Ops, LRUOp{Kind: "S", Key: k, Val: i + 1})
